@@ -222,7 +222,9 @@ def scenario(A, B, mode, w):
     else:
         n = 1 if mode == 'once' else R
         for i in range(n):
-            steps += ctx('a%d' % i, w['x'], w['y']) + [{'op': 'execute', 'hex': A.encode().hex(), 'ctx': 'a%d' % i}]
+            # each context of the history is dropped before the next one is created (one context per request):
+            # address-keyed state in the crate then meets a reused address
+            steps += ctx('a%d' % i, w['x'], w['y']) + [{'op': 'execute', 'hex': A.encode().hex(), 'ctx': 'a%d' % i}, {'op': 'ctx_drop', 'ctx': 'a%d' % i}]
     steps += ctx('b', w['x2'], w['y2']) + [{'op': 'execute', 'hex': B.encode().hex(), 'ctx': 'b'}, {'op': 'ctx_dump', 'ctx': 'b'}]
     return steps
 
